@@ -25,6 +25,10 @@ def edge_recipes():
         ['mp', ['dyn', P1, [[0, pi2v.IMP(M(0), pi2v.IMP(M(1), M(0)))], [1, M(2)]]], P1],
         ['mp', ['dyn', P1, [[0, M(0)], [1, M(1)]]], ['dyn', P1, [[5, X0]]]],   # no-op instantiation consumed by a rule
         ['mp', ['dyn', P2, [[1, pi2v.IMP(M(0), M(0))], [2, M(0)]]], ['dyn', P1, [[1, pi2v.IMP(M(0), M(0))]]]],
+        # a no-op instantiation (absent metavariable / identity plug) whose result is consumed by a further rule
+        ['mp', ['dyn', ['dyn', P1, [[0, pi2v.IMP(M(0), pi2v.IMP(M(1), M(0)))], [1, M(2)]]], [[5, X0]]], P1],
+        ['mp', ['dyn', ['dyn', P1, [[0, pi2v.IMP(M(0), pi2v.IMP(M(1), M(0)))], [1, M(2)]]], [[2, M(2)]]], P1],
+        ['mp', ['dyn', P1, [[0, pi2v.IMP(M(0), pi2v.IMP(M(1), M(0)))], [1, M(2)]]], ['dyn', P1, [[7, N['neg'](X1)]]]],
         ['gen', P1, 0], ['gen', ['dyn', P1, [[0, X1]]], 0], ['gen', ['dyn', P1, [[0, X0], [1, X1]]], 1],
         Q, ['dyn', Q, [[0, X1]]], ['dyn', Q, [[0, pi2v.EX(1, pi2v.EV(0))]]],
         ['lemma', 'imp_refl', [{'pattern': REV_NOT}]],
